@@ -61,6 +61,8 @@ def gen(cs, kinds_pool=("sec", "fi", "cp", "cp", "fi", "hedge", "cphedge"), nd=(
         for _ in range(rng.randint(1, 2)):
             a = rng.randint(1, ndates - 1)
             spec["drops"].append([rng.choice(target_names), a, min(ndates, a + rng.randint(1, 6))])
+    # children declared lazily: they join the tree at their first trade (after setup)
+    spec["lazy"] = [rng.random() < 0.5 for _ in names] if rng.random() < 0.35 else [False] * n
     return spec
 
 
@@ -99,7 +101,8 @@ def weight_at(spec, name, row):
 
 
 def children(spec):
-    return [TYPES[k](nm, multiplier=m) for nm, k, m in zip(spec["names"], spec["kinds"], spec["mults"])]
+    lazy = spec.get("lazy") or [False] * len(spec["names"])
+    return [TYPES[k](nm, multiplier=m, lazy_add=bool(lz)) for nm, k, m, lz in zip(spec["names"], spec["kinds"], spec["mults"], lazy)]
 
 
 class HedgeTrader(bt.Algo):
@@ -178,8 +181,8 @@ def accrual(spec, ex, sec, i_full, pos):
 
 def signature(spec):
     return [sorted(set(spec["kinds"])), spec["sched"], spec["integer"], spec["comm"], spec["bidoffer"] is not None, spec["cost_long"] is not None,
-            spec["cost_short"] is not None, len(spec["nv_rows"]) < spec["nd"], bool(spec.get("flip_rows")), bool(spec.get("drops"))]
+            spec["cost_short"] is not None, len(spec["nv_rows"]) < spec["nd"], bool(spec.get("flip_rows")), bool(spec.get("drops")), any(spec.get("lazy") or [])]
 
 
 def sample_of(spec):
-    return {k: spec[k] for k in ("names", "kinds", "mults", "nd", "weights", "flip_rows", "drops", "sched", "integer", "comm", "nv_rows", "nv", "hedge_trades")}
+    return {k: spec[k] for k in ("names", "kinds", "mults", "nd", "weights", "flip_rows", "drops", "lazy", "sched", "integer", "comm", "nv_rows", "nv", "hedge_trades")}
